@@ -10,7 +10,7 @@ EXTENDS Expr
 VARIABLE l
 
 RECURSIVE Subst(_, _)
-Subst(e, sv) == CASE e.k = "t" -> e
+Subst(e, sv) == CASE e.k \in {"t", "k"} -> e
                   [] e.k = "s" -> [k |-> "s", v |-> sv]
                   [] e.k \in {"neg", "abs", "sqrt", "not"} -> [k |-> e.k, x |-> Subst(e.x, sv)]
                   [] OTHER -> [k |-> e.k, l |-> Subst(e.l, sv), r |-> Subst(e.r, sv)]
